@@ -1,7 +1,7 @@
 (* driver `faults` (C09): real closed loops under a fault plan against Model.Faults
    with all defect flags clear; the verified observer judges the implementation's
    own observation (no crash; a stop only through a safe restore). *)
-From F2G Require Export Model.Restore Model.Faults.
+From F2G Require Export Model.Restore Model.Faults Model.FaultsOps.
 From F2G Require Import Drv.Common gen.Consts.
 From Coq Require Import Lia.
 
@@ -14,6 +14,10 @@ Record case := mkCase {
   o_cycle : Z;             (* cycle of the stop / panic; -1 when still regulating *)
   o_dev : dev;             (* device at the end *)
   o_ops : list op;         (* driver operations of the restore *)
+  c_ops : list ocyc;       (* per-operation plan (fault of the k-th hooked file operation of each cycle); [] = the regime plan c_plan is used *)
+  o_lastw : bool;          (* the last PWM write of the restore was hit by an injected fault *)
+  o_trace : list (list Z); (* per cycle: classes of the hooked file operations in the order they happened
+                              (0 sensor read, 1 RPM read, 2 PWM read, 3 PWM write, 4 mode write, 5 mode read) *)
 }.
 
 Definition dev_eqb (a b : dev) : bool := (mode a =? mode b) && (pwm a =? pwm b).
@@ -30,7 +34,35 @@ Definition op_eqb (a b : op) : bool :=
 Definition no_reads (l : list op) : list op :=
   filter (fun o => match o with OpRMode => false | _ => true end) l.
 
-Definition model (D : Defects) (c : case) : outcome := run D (c_cb c) (c_orig c) (c_d0 c) (c_plan c).
+Definition per_op (c : case) : bool := match c_ops c with [] => false | _ => true end.
+
+Definition model (D : Defects) (c : case) : outcome :=
+  if per_op c then fst (run_ops D (c_cb c) (c_orig c) (c_d0 c) (c_ops c))
+  else run D (c_cb c) (c_orig c) (c_d0 c) (c_plan c).
+
+(* the order of operations: the model's trace against the hook log, class by class *)
+Definition class_of (k : okind) : Z :=
+  match k with
+  | KSensorMon | KSensorCurve => 0
+  | KRpmRead => 1
+  | KPwmWrite | KRestoreWrite | KRestoreLast => 3
+  | KModeWrite | KRestoreMode => 4
+  | KModeReadBack | KRestoreReadBack => 5
+  | _ => 2
+  end.
+(* the PWM write at the end of setPwm is value-dependent (skipped when the fan already shows the target)
+   and not part of the model's trace: one trailing write is tolerated *)
+Definition cycle_trace_ok (m : list (okind * fault)) (o : list Z) : bool :=
+  let mc := map (fun e => class_of (fst e)) m in
+  list_eqb Z.eqb mc o || list_eqb Z.eqb (mc ++ [3]) o.
+Fixpoint traces_ok (ms : list (list (okind * fault))) (os : list (list Z)) : bool :=
+  match ms, os with
+  | [], _ => true
+  | m :: mr, o :: or => cycle_trace_ok m o && traces_ok mr or
+  | _ :: _, [] => false
+  end.
+Definition trace_agrees (D : Defects) (c : case) : bool :=
+  if per_op c then traces_ok (snd (run_ops D (c_cb c) (c_orig c) (c_d0 c) (c_ops c))) (o_trace c) else true.
 
 Definition agrees (D : Defects) (c : case) : bool :=
   match model D c with
@@ -40,7 +72,7 @@ Definition agrees (D : Defects) (c : case) : bool :=
   | Crash k _ => (o_kind c =? 2) && (o_cycle c =? k)
   end.
 
-Definition mismatch (c : case) : bool := negb (agrees repaired c).
+Definition mismatch (c : case) : bool := negb (agrees repaired c && trace_agrees repaired c).
 
 Fixpoint count_wpwm (l : list op) : Z :=
   match l with
@@ -49,9 +81,6 @@ Fixpoint count_wpwm (l : list op) : Z :=
   | _ :: r => count_wpwm r
   end.
 Definition attempted_last_resort (ops : list op) : bool := 2 <=? count_wpwm ops.
-
-Definition stop_regime (c : case) : cyc :=
-  nth (Z.to_nat (o_cycle c)) (c_plan c) (mkCyc FNone FNone FNone 0 FNone FNone false).
 
 Definition sup (c : case) : bool := mode_supported (cb_fan (c_cb c)) (cb_enable_exists (c_cb c)).
 
@@ -62,13 +91,13 @@ Definition holdsb (c : case) : bool :=
   if o_kind c =? 2 then false
   else if o_kind c =? 1 then
     safeb (sup c) (c_orig c) (o_dev c)
-    || (attempted_last_resort (o_ops c) && match w_of_fault (cy_pwm_write (stop_regime c)) with WOk => false | _ => true end)
+    || (attempted_last_resort (o_ops c) && o_lastw c)
   else true.
 
 Definition Holds (c : case) : Prop :=
   o_kind c <> 2 /\
   (o_kind c = 1 -> safe (sup c) (c_orig c) (o_dev c)
-                   \/ (attempted_last_resort (o_ops c) = true /\ w_of_fault (cy_pwm_write (stop_regime c)) <> WOk)).
+                   \/ (attempted_last_resort (o_ops c) = true /\ o_lastw c = true)).
 
 Lemma holdsb_spec c : holdsb c = true <-> Holds c.
 Proof.
@@ -78,10 +107,7 @@ Proof.
   - apply Z.eqb_neq in E2.
     destruct (o_kind c =? 1) eqn:E1.
     + apply Z.eqb_eq in E1.
-      set (w := w_of_fault (cy_pwm_write (stop_regime c))).
-      assert (W : (match w with WOk => false | _ => true end) = true <-> w <> WOk).
-      { destruct w; split; intros H; first [discriminate | congruence | reflexivity]. }
-      rewrite orb_true_iff, andb_true_iff, safeb_spec, W. split.
+      rewrite orb_true_iff, andb_true_iff, safeb_spec. split.
       * intros H. split; [exact E2|intros _; exact H].
       * intros [_ H]. apply H. exact E1.
     + apply Z.eqb_neq in E1. split; [|reflexivity].
